@@ -320,7 +320,7 @@ func verifUserLogged() (*user, *verifWorldLog) {
 
 // verifRecover runs the start-up procedure on the state a crash after `prefix` effects leaves behind and checks
 // that every listed message can still be served.
-func verifRecover(w *verifWorldLog, initStore map[imap.InternalMessageID][]byte, initDB *verifdb.DB, prefix int) {
+func verifRecover(w *verifWorldLog, initStore map[imap.InternalMessageID][]byte, initDB *verifdb.DB, prefix int) *verifdb.DB {
 	storeC := initStore
 	dbC := initDB
 	for i := 0; i < prefix; i++ {
@@ -364,6 +364,7 @@ func verifRecover(w *verifWorldLog, initStore map[imap.InternalMessageID][]byte,
 	for _, m := range d.Msgs {
 		vsymAssert(!m.MarkedDeleted, "start-up purges messages marked deleted")
 	}
+	return d
 }
 
 // VerifC07Crash: connector-driven message creation / update / deletion with failing steps and a crash after any
@@ -381,6 +382,7 @@ func VerifC07Crash() {
 	initDB := d.Clone()
 	initDB.OnCommit = nil
 	ctx := context.Background()
+	d.CommitFaults = true
 	d.FaultBudget = vsymParam("faults")
 	st.faultBudget = vsymParam("faults")
 	var up imap.Update
